@@ -410,6 +410,14 @@ for _name in ("_has_concrete_child", "_has_anchored_child"):
                     "implies(called('has_child') == 1, extended_by(call_event('has_child')[5], ancestry, (data, idx)))",
                 ]},
             } if n == "_has_anchored_child" else {}
+            # C13, the definition of has_child on ONE hash / plain list / null: the node itself is the answer exactly when
+            # "has the named key (element)" differs from `invert`; the result carries the coordinates it was given
+            ensures = [
+                "implies(isinstance(data, dict), len(out) == (1 if ((parameters[0] in data) != invert) else 0))",
+                "implies(isinstance(data, dict) and len(out) == 1, out[0].node is data and out[0].parent is kw_parent "
+                "and same(out[0].parentref, kw_parentref) and out[0].path is kw_translated_path and out[0].ancestry is kw_ancestry)",
+                "implies(data is None, len(out) == (1 if invert else 0))",
+            ] if n == "_has_concrete_child" else []
             opts = dict(SEG_INV, yields="Union[NodeCoords, list]", decreases="size of the (finite, acyclic) subtree under `data`",
                         event="('has_child', data, kw_parent, kw_parentref, kw_translated_path, kw_ancestry)")
         _H.__name__ = "Keyword" + n
